@@ -76,6 +76,22 @@ def run(ctx):
             camp.sh.maybe_flush()
             if i < 3:
                 ctx.sample({"program": prog})
+        # lengths, counts and paddings far beyond the data, from fixed-width fields (validated against Sem: the format needs those bytes)
+        n16, n32 = A.Renamed("n", A.Alias("Int16ub")), A.Renamed("n", A.Alias("Int32ub"))
+        N = A.T("n")
+        for nf in (n16, n32):
+            for body in (A.Padded(N, A.Alias("Byte")), A.Padding(N), A.Bytes(N), A.FixedSized(N, A.GreedyBytes), A.Array(N, A.Alias("Byte")) if nf is n16 else A.Bytes(N),
+                         A.PaddedString(N, "utf8"), A.Aligned(N, A.Alias("Byte")), A.Prefixed(nf["sub"], A.GreedyBytes), A.Pointer(N, A.Alias("Byte"))):
+                prog = A.Struct(nf, A.Renamed("d", body)) if body["k"] != "Prefixed" else body
+                con = campaign.realizable(prog)
+                if con is None:
+                    continue
+                for head in (b"\xff\xff", b"\x7f\xff", b"\x20\x01", b"\x00\x09"):
+                    h = head if nf is n16 else head + b"\xff\xf0"
+                    for tail in (b"", b"\x01", b"\x01\x02\x03"):
+                        camp.parse(prog, con, h + tail, 0, {}, tag="large")
+                        nt += 1
+            camp.sh.maybe_flush()
         # spec -> code: every input of the sessions TLC explores on the model's universe (design level: theorems Closed / Prefix of MC_CAM),
         # and every strict prefix of the encodings the specification built
         uprogs, ukw, sessions, _ = speccode.explore(ctx, focus="all", part=speccode.part_of(ctx, 64 if quick else 64), faults=True)
